@@ -83,6 +83,8 @@ func errClass(err error) string {
 		return "pidnotfound"
 	case errors.Is(err, astits.ErrPIDAlreadyExists):
 		return "pidexists"
+	case errors.Is(err, astits.ErrPIDInvalid):
+		return "pidinvalid"
 	case errors.Is(err, astits.ErrPCRPIDInvalid):
 		return "pcrinvalid"
 	case errors.Is(err, astits.ErrNoMorePackets):
